@@ -156,6 +156,7 @@ def stepStr (s : St) (ws : List String) : Option (St × String) :=
   match ws with
   | ["snew"] => some ({ s with str := RStr.fresh, strMeta := 0 }, showS RStr.fresh)
   | "sassign" :: vs => do let x := s.str.assign (← parseNats vs); some ({ s with str := x }, showS x)
+  | "smove" :: vs => do let x := s.str.moveFrom (← parseNats vs); some ({ s with str := x }, showS x)
   | "sappend" :: vs => do let x := s.str.append (← parseNats vs); some ({ s with str := x }, showS x)
   | ["sclear"] => let x := s.str.clear; some ({ s with str := x }, showS x)
   | ["sreserve", n] => do let x := s.str.stableReserve (← n.toNat?); some ({ s with str := x }, showS x)
